@@ -300,17 +300,28 @@ impl EigenTrustEngine {
                 new_trust.insert(node.clone(), (1.0 - self.alpha) * trust_sum);
             }
 
+            // Trust held by nodes that made no positive statement has nowhere to
+            // flow. Without this it would leak and be handed back proportionally by
+            // the normalisation below - also to identities nobody vouches for.
+            // Standard EigenTrust: such nodes defer to the pre-trusted distribution.
+            let dangling_mass: f64 = node_set
+                .iter()
+                .filter(|node| outgoing_sums.get(*node).is_none_or(|sum| *sum <= 0.0))
+                .filter_map(|node| trust_vector.get(node))
+                .sum();
+            let teleport_mass = self.alpha + (1.0 - self.alpha) * dangling_mass;
+
             // Add teleportation component (alpha portion)
             if !pre_trusted.is_empty() {
                 // Teleport to pre-trusted nodes only
                 // This ensures pre-trusted nodes always maintain baseline trust
                 for pre_node in pre_trusted.iter() {
                     let current = new_trust.entry(pre_node.clone()).or_insert(0.0);
-                    *current += self.alpha * pre_trust_value;
+                    *current += teleport_mass * pre_trust_value;
                 }
             } else {
                 // No pre-trusted nodes - uniform teleportation
-                let uniform_value = self.alpha / n as f64;
+                let uniform_value = teleport_mass / n as f64;
                 for node in &node_set {
                     let current = new_trust.entry(node.clone()).or_insert(0.0);
                     *current += uniform_value;
